@@ -515,6 +515,8 @@ class Session:
         return [self.entry(f) for f in h.select_all()]
 
     def _span(self, ci, o):
+        if o.get("span_fs") is not None:
+            return self.fss[o["span_fs"]]       # an indexed annotation used as the span
         ann = self.tss[self.cas_ts[ci]].get_type("uima.tcas.Annotation")
         return ann(begin=o["b"], end=o["e"])
 
